@@ -31,39 +31,45 @@ Proof. intros Ha Hb. rewrite Z2Nat.inj_add by lia. apply repeat_app. Qed.
 Lemma zlen_repeat {A} (x : A) n : 0 <= n -> zlen (repeat x (Z.to_nat n)) = n.
 Proof. intros H. unfold zlen. rewrite repeat_length. lia. Qed.
 
-(* ================================================================== sbdf_allocate_array *)
-Definition aa (n : Z) (a bv : val) (k : Z) (m o : list Z) : state :=
-  {| vars := [("length"%string, VInt n); ("alloc"%string, a); (budget_var, bv); (fail_var, VInt k)]; inb := m; outb := o |}.
-
-Ltac evh := cbn [eval lookup update set_var String.eqb Ascii.eqb Bool.eqb vars inb outb truth cast binop_int b2z fst snd negb budget_var fail_var];
+Ltac evh := cbn [eval lookup update set_var String.eqb Ascii.eqb Bool.eqb vars inb outb truth cast binop_int b2z fst snd negb budget_var fail_var strm_var];
   change (0 =? 0) with true; change (1 =? 0) with false; cbn [negb b2z].
 Ltac evch := cbn [prog_env eval_args callee_init finish_call copy_in copy_out try_update update lookup combine map app String.append
-                 String.eqb Ascii.eqb Bool.eqb fparams flocals fbody vars inb outb budget_var fail_var cell_token List.length Nat.eqb eval set_var cast
+                 String.eqb Ascii.eqb Bool.eqb fparams flocals fbody vars inb outb budget_var fail_var strm_var cell_token List.length Nat.eqb eval set_var cast
                  prog_sbdf_allocate_array prog_sbdf_dispose_array prog_sbdf_copy_array prog_sbdf_str_create_len prog_sbdf_str_create
                  prog_sbdf_str_destroy prog_sbdf_str_copy prog_sbdf_ba_create prog_sbdf_ba_destroy prog_sbdf_get_array_length prog_sbdf_str_len
                  truth binop_int b2z negb];
   change (0 =? 0) with true; change (1 =? 0) with false; cbn [negb b2z].
 
+Section WithStream.
+(* the unread bytes of the input stream: none of the functions of this section touches it *)
+Variable sx : list Z.
+
+(* ================================================================== sbdf_allocate_array *)
+Definition aa (n : Z) (a bv : val) (k : Z) (m o : list Z) : state :=
+  {| vars := [("length"%string, VInt n); ("alloc"%string, a); (budget_var, bv); (fail_var, VInt k); (strm_var, VBytes sx)]; inb := m; outb := o |}.
+
+
 Definition next_fail (k : Z) : Z := if 0 <? k then k - 1 else k.
 
-Lemma allocate_array_bs n a bv k m o : 0 <= n -> n + 4 <= int_max ->
+Lemma allocate_array_bs n a bv k m o : 0 <= n -> n <= int_max ->
   bsE prog_env (fbody prog_sbdf_allocate_array) (aa n a bv k m o)
     (if k =? 0 then OReturn VNull (aa n VNull bv (-1) m o)
      else OReturn (VPtr RIn (zlen m + 4)) (aa n (VPtr RIn (zlen m + 4)) bv (next_fail k) (m ++ le32 n ++ repeat junk (Z.to_nat n)) o)).
 Proof.
   intros Hn Hmax. cbn [fbody prog_sbdf_allocate_array]. unfold aa. unfold int_max in *.
-  set (sz := EBin Imp.Add (ECast TSizeT (EVar "length")) (EConst 4)).
+  set (sz := ESizeAdd (ECast TSizeT (EVar "length")) (EConst 4)).
   pose proof (zlen_nonneg m) as Pm.
   assert (Hnew : m ++ repeat junk (Z.to_nat (n + 4)) = m ++ repeat junk (Z.to_nat 4) ++ repeat junk (Z.to_nat n)).
   { replace (n + 4) with (4 + n) by lia. rewrite repeat_app_z by lia. reflexivity. }
   assert (Hst : upd_range (Z.to_nat (zlen m)) [n mod u32 mod 256; n mod u32 / 256 mod 256; n mod u32 / 65536 mod 256; n mod u32 / 16777216 mod 256]
                   (m ++ repeat junk (Z.to_nat 4) ++ repeat junk (Z.to_nat n)) = m ++ le32 n ++ repeat junk (Z.to_nat n)).
   { unfold zlen. rewrite Nat2Z.id. rewrite upd_range_at by reflexivity. reflexivity. }
-  assert (HM : eval (EMalloc sz) {| vars := [("length"%string, VInt n); ("alloc"%string, a); (budget_var, bv); (fail_var, VInt k)]; inb := m; outb := o |}
-     = if k =? 0 then Some (VNull, {| vars := [("length"%string, VInt n); ("alloc"%string, a); (budget_var, bv); (fail_var, VInt (-1))]; inb := m; outb := o |})
-       else Some (VPtr RIn (zlen m), {| vars := [("length"%string, VInt n); ("alloc"%string, a); (budget_var, bv); (fail_var, VInt (next_fail k))];
+  assert (HM : eval (EMalloc sz) {| vars := [("length"%string, VInt n); ("alloc"%string, a); (budget_var, bv); (fail_var, VInt k); (strm_var, VBytes sx)]; inb := m; outb := o |}
+     = if k =? 0 then Some (VNull, {| vars := [("length"%string, VInt n); ("alloc"%string, a); (budget_var, bv); (fail_var, VInt (-1)); (strm_var, VBytes sx)]; inb := m; outb := o |})
+       else Some (VPtr RIn (zlen m), {| vars := [("length"%string, VInt n); ("alloc"%string, a); (budget_var, bv); (fail_var, VInt (next_fail k)); (strm_var, VBytes sx)];
                                         inb := m ++ repeat junk (Z.to_nat (n + 4)); outb := o |})).
-  { unfold sz. evh. replace (0 <=? n) with true by lia. evh. chk7. evh. chk7. replace (0 <=? n + 4) with true by lia. evh.
+  { unfold sz. evh. replace (0 <=? n) with true by lia. evh. chk7. evh. replace ((0 <=? n) && (0 <=? 4)) with true by lia.
+    rewrite (Z.mod_small (n + 4)) by lia. replace (0 <=? n + 4) with true by lia. evh.
     unfold next_fail. destruct (k =? 0) eqn:Ek; [reflexivity|]. destruct (0 <? k) eqn:Ekp; reflexivity. }
   destruct (k =? 0) eqn:Ek.
   - eapply bsE_seq; [eapply bsE_decl1; [exact HM|evh; reflexivity]|].
@@ -79,7 +85,7 @@ Qed.
 
 (* ================================================================== sbdf_str_create_len *)
 Definition cl (sv : val) (n : Z) (p bv : val) (k : Z) (m o : list Z) : state :=
-  {| vars := [("str"%string, sv); ("length"%string, VInt n); ("ptr"%string, p); (budget_var, bv); (fail_var, VInt k)]; inb := m; outb := o |}.
+  {| vars := [("str"%string, sv); ("length"%string, VInt n); ("ptr"%string, p); (budget_var, bv); (fail_var, VInt k); (strm_var, VBytes sx)]; inb := m; outb := o |}.
 
 (* the bytes a (possibly null) source pointer stands for *)
 Definition src_ok (sv : val) (n : Z) (m : list Z) (payload : list Z) : Prop :=
@@ -99,12 +105,12 @@ Qed.
 
 Lemma src_len sv n m payload : 0 <= n -> src_ok sv n m payload -> zlen payload = n.
 Proof.
-  intros Hn H. unfold src_ok in H. destruct sv as [z| [|] q | |]; try contradiction.
+  intros Hn H. unfold src_ok in H. destruct sv as [z| [|] q | | |bs]; try contradiction.
   - destruct H as (Hq & Hb & ->). unfold zlen. rewrite firstn_length, skipn_length. unfold zlen in Hb. lia.
   - subst payload. now apply zlen_repeat.
 Qed.
 
-Lemma str_create_len_bs sv n p bv k m o payload : 0 <= n -> n + 5 <= int_max -> src_ok sv n m payload ->
+Lemma str_create_len_bs sv n p bv k m o payload : 0 <= n -> n + 1 <= int_max -> src_ok sv n m payload ->
   bsE prog_env (fbody prog_sbdf_str_create_len) (cl sv n p bv k m o)
     (if k =? 0 then OReturn VNull (cl sv n VNull bv (-1) m o)
      else OReturn (VPtr RIn (zlen m + 4)) (cl sv n (VPtr RIn (zlen m + 4)) bv (next_fail k) (str_mem m payload []) o)).
@@ -112,14 +118,14 @@ Proof.
   intros Hn Hmax Hsrc. cbn [fbody prog_sbdf_str_create_len]. unfold cl. unfold int_max in *.
   pose proof (src_len sv n m payload Hn Hsrc) as Hlen. pose proof (zlen_nonneg m) as Pm.
   assert (Hsv : exists t, truth sv = Some t /\ (t = false -> sv = VNull)).
-  { destruct sv as [z| [|] q | |]; try contradiction; [exists true|exists false]; split; try reflexivity; discriminate. }
+  { destruct sv as [z| [|] q | | |bs]; try contradiction; [exists true|exists false]; split; try reflexivity; discriminate. }
   pose proof (allocate_array_bs (1 + n) VUndef bv k m o ltac:(lia) ltac:(unfold int_max; lia)) as AL.
   eapply bsE_seq; [eapply bsE_decl0; evh; reflexivity|].
   eapply bsE_seq.
-  { eapply bsE_if; [destruct sv as [z| [|] q | |]; try contradiction; evh; chk7; evh; replace (n <? 0) with false by lia; evh; chk7; evh; replace (n =? 2147483647) with false by lia; reflexivity|reflexivity|apply bsE_skip]. }
+  { eapply bsE_if; [destruct sv as [z| [|] q | | |bs]; try contradiction; evh; chk7; evh; replace (n <? 0) with false by lia; evh; chk7; evh; replace (n =? 2147483647) with false by lia; reflexivity|reflexivity|apply bsE_skip]. }
   destruct (k =? 0) eqn:Ek.
   - eapply bsE_seq.
-    + eapply bsE_call; [reflexivity|destruct sv as [z| [|] q | |]; try contradiction; evch; chk7; evch; chk7; reflexivity|reflexivity|exact AL|unfold aa; destruct sv as [z| [|] q | |]; try contradiction; evch; reflexivity].
+    + eapply bsE_call; [reflexivity|destruct sv as [z| [|] q | | |bs]; try contradiction; evch; chk7; evch; chk7; reflexivity|reflexivity|exact AL|unfold aa; destruct sv as [z| [|] q | | |bs]; try contradiction; evch; reflexivity].
     + eapply bsE_seq; [eapply bsE_if; [evh; reflexivity|reflexivity|apply bsE_skip]|]. eapply bsE_return. evh. reflexivity.
   - (* the block is there: header written by sbdf_allocate_array, now the terminator and the bytes *)
     set (pfx := m ++ le32 (1 + n)).
@@ -135,8 +141,8 @@ Proof.
       - apply (upd_nth_at (pfx ++ repeat junk (Z.to_nat n)) junk [] v).
       - rewrite app_length, repeat_length. unfold zlen in *. lia. }
     eapply bsE_seq.
-    + eapply bsE_call; [reflexivity|destruct sv as [z| [|] q | |]; try contradiction; evch; chk7; evch; chk7; reflexivity|reflexivity|exact AL|unfold aa; destruct sv as [z| [|] q | |]; try contradiction; evch; reflexivity].
-    + destruct sv as [z| [|] q | |]; try contradiction.
+    + eapply bsE_call; [reflexivity|destruct sv as [z| [|] q | | |bs]; try contradiction; evch; chk7; evch; chk7; reflexivity|reflexivity|exact AL|unfold aa; destruct sv as [z| [|] q | | |bs]; try contradiction; evch; reflexivity].
+    + destruct sv as [z| [|] q | | |bs]; try contradiction.
       * (* a source: copy it *)
         destruct Hsrc as (Hq & Hb & Hp).
         eapply bsE_seq.
@@ -166,6 +172,17 @@ Proof.
 Qed.
 
 (* ================================================================== sbdf_str_create (strlen) and sbdf_str_copy *)
+(* lengths the constructor refuses: negative, or INT_MAX (no room for the terminator) - NULL, nothing allocated *)
+Lemma str_create_len_refused sv n p bv k m o : n < 0 \/ n = int_max ->
+  bsE prog_env (fbody prog_sbdf_str_create_len) (cl sv n p bv k m o) (OReturn VNull (cl sv n VUndef bv k m o)).
+Proof.
+  intros Hn. cbn [fbody prog_sbdf_str_create_len]. unfold cl. unfold int_max in Hn.
+  eapply bsE_seq; [eapply bsE_decl0; evh; reflexivity|]. eapply bsE_seq_ret.
+  destruct (n <? 0) eqn:En.
+  - eapply bsE_if; [evh; chk7; evh; rewrite En; evh; reflexivity|reflexivity|]. eapply bsE_return. evh. reflexivity.
+  - eapply bsE_if; [evh; chk7; evh; rewrite En; evh; chk7; evh; replace (n =? 2147483647) with true by lia; evh; reflexivity|reflexivity|]. eapply bsE_return. evh. reflexivity.
+Qed.
+
 Lemma strlen_l_spec bytes post : Forall (fun b => b <> 0) bytes -> strlen_l (bytes ++ 0 :: post) = Some (zlen bytes).
 Proof.
   induction 1 as [|b bytes Hb _ IH]; cbn [app strlen_l]; [reflexivity|].
@@ -173,9 +190,9 @@ Proof.
 Qed.
 
 Definition sc1 (q : Z) (r bv : val) (k : Z) (m o : list Z) : state :=
-  {| vars := [("str"%string, VPtr RIn q); ("$ret"%string, r); (budget_var, bv); (fail_var, VInt k)]; inb := m; outb := o |}.
+  {| vars := [("str"%string, VPtr RIn q); ("$ret"%string, r); (budget_var, bv); (fail_var, VInt k); (strm_var, VBytes sx)]; inb := m; outb := o |}.
 
-Lemma str_create_bs pre bytes post r bv k o : Forall (fun b => b <> 0) bytes -> zlen bytes + 5 <= int_max ->
+Lemma str_create_bs pre bytes post r bv k o : Forall (fun b => b <> 0) bytes -> zlen bytes + 1 <= int_max ->
   let m := pre ++ bytes ++ 0 :: post in
   bsE prog_env (fbody prog_sbdf_str_create) (sc1 (zlen pre) r bv k m o)
     (if k =? 0 then OReturn VNull (sc1 (zlen pre) VNull bv (-1) m o)
@@ -188,9 +205,9 @@ Proof.
   { split; [lia|]. split; [lia|]. rewrite Hsk. unfold zlen. rewrite Nat2Z.id. rewrite firstn_app, Nat.sub_diag, firstn_all. cbn [firstn]. now rewrite app_nil_r. }
   pose proof (str_create_len_bs (VPtr RIn (zlen pre)) (zlen bytes) VUndef bv k m o bytes Pb Hmax Hsrc) as CL.
   assert (Hargs : eval_args [AVal (EVar "str"); AVal (ECast TInt (EStrlen (EVar "str")))]
-            {| vars := [("str"%string, VPtr RIn (zlen pre)); ("$ret"%string, r); (budget_var, bv); (fail_var, VInt k)]; inb := m; outb := o |}
+            {| vars := [("str"%string, VPtr RIn (zlen pre)); ("$ret"%string, r); (budget_var, bv); (fail_var, VInt k); (strm_var, VBytes sx)]; inb := m; outb := o |}
           = Some ([VPtr RIn (zlen pre); VInt (zlen bytes)], [None; None],
-                  {| vars := [("str"%string, VPtr RIn (zlen pre)); ("$ret"%string, r); (budget_var, bv); (fail_var, VInt k)]; inb := m; outb := o |})).
+                  {| vars := [("str"%string, VPtr RIn (zlen pre)); ("$ret"%string, r); (budget_var, bv); (fail_var, VInt k); (strm_var, VBytes sx)]; inb := m; outb := o |})).
   { cbn [eval_args eval lookup String.eqb Ascii.eqb Bool.eqb vars inb]. rewrite zlen_length, Hlm.
     replace ((0 <=? zlen pre) && (zlen pre <=? zlen pre + zlen bytes + 1 + zlen post)) with true by lia.
     rewrite Hsk, (strlen_l_spec bytes post Hnz). cbn [cast]. unfold int_max in Hmax. rewrite wrap_id by (unfold int_min, int_max; lia). reflexivity. }
@@ -201,7 +218,7 @@ Qed.
 
 (* sbdf_get_array_length / sbdf_str_len called from a frame that carries the failure oracle *)
 Definition ga2 (p : Z) (bv : val) (k : Z) (m o : list Z) : state :=
-  {| vars := [("array"%string, VPtr RIn p); (budget_var, bv); (fail_var, VInt k)]; inb := m; outb := o |}.
+  {| vars := [("array"%string, VPtr RIn p); (budget_var, bv); (fail_var, VInt k); (strm_var, VBytes sx)]; inb := m; outb := o |}.
 
 Lemma get_array_length_bs2 pre n rest bv k o : 0 <= n < 2147483648 ->
   bsE prog_env (fbody prog_sbdf_get_array_length) (ga2 (zlen pre + 4) bv k (pre ++ le32 n ++ rest) o)
@@ -216,7 +233,7 @@ Proof.
 Qed.
 
 Definition sl2 (p : Z) (c bv : val) (k : Z) (m o : list Z) : state :=
-  {| vars := [("str"%string, VPtr RIn p); ("$c1"%string, c); (budget_var, bv); (fail_var, VInt k)]; inb := m; outb := o |}.
+  {| vars := [("str"%string, VPtr RIn p); ("$c1"%string, c); (budget_var, bv); (fail_var, VInt k); (strm_var, VBytes sx)]; inb := m; outb := o |}.
 
 Lemma str_len_bs2 pre bytes post c bv k o : zlen bytes + 1 < 2147483648 ->
   bsE prog_env (fbody prog_sbdf_str_len) (sl2 (zlen pre + 4) c bv k (str_mem pre bytes post) o)
@@ -229,9 +246,9 @@ Proof.
 Qed.
 
 Definition scp (p : Z) (c r bv : val) (k : Z) (m o : list Z) : state :=
-  {| vars := [("inp"%string, VPtr RIn p); ("$c2"%string, c); ("$ret"%string, r); (budget_var, bv); (fail_var, VInt k)]; inb := m; outb := o |}.
+  {| vars := [("inp"%string, VPtr RIn p); ("$c2"%string, c); ("$ret"%string, r); (budget_var, bv); (fail_var, VInt k); (strm_var, VBytes sx)]; inb := m; outb := o |}.
 
-Lemma str_copy_bs pre bytes post c r bv k o : zlen bytes + 5 <= int_max ->
+Lemma str_copy_bs pre bytes post c r bv k o : zlen bytes + 1 <= int_max ->
   let m := str_mem pre bytes post in
   exists c', bsE prog_env (fbody prog_sbdf_str_copy) (scp (zlen pre + 4) c r bv k m o)
     (if k =? 0 then OReturn VNull (scp (zlen pre + 4) c' VNull bv (-1) m o)
@@ -256,9 +273,9 @@ Qed.
 
 (* ================================================================== sbdf_ba_create *)
 Definition bc (sv : val) (n : Z) (p c bv : val) (k : Z) (m o : list Z) : state :=
-  {| vars := [("str"%string, sv); ("length"%string, VInt n); ("ptr"%string, p); ("$c1"%string, c); (budget_var, bv); (fail_var, VInt k)]; inb := m; outb := o |}.
+  {| vars := [("str"%string, sv); ("length"%string, VInt n); ("ptr"%string, p); ("$c1"%string, c); (budget_var, bv); (fail_var, VInt k); (strm_var, VBytes sx)]; inb := m; outb := o |}.
 
-Lemma ba_create_bs sv n p c bv k m o payload : 0 <= n -> n + 4 <= int_max -> src_ok sv n m payload ->
+Lemma ba_create_bs sv n p c bv k m o payload : 0 <= n -> n <= int_max -> src_ok sv n m payload ->
   exists c', bsE prog_env (fbody prog_sbdf_ba_create) (bc sv n p c bv k m o)
     (if k =? 0 then OReturn VNull (bc sv n VNull c' bv (-1) m o)
      else OReturn (VPtr RIn (zlen m + 4)) (bc sv n (VPtr RIn (zlen m + 4)) c' bv (next_fail k) (ba_mem m payload []) o)).
@@ -268,16 +285,16 @@ Proof.
   pose proof (allocate_array_bs n VUndef bv k m o Hn ltac:(unfold int_max; lia)) as AL.
   destruct (k =? 0) eqn:Ek.
   - eexists. eapply bsE_seq.
-    + eapply bsE_seq; [eapply bsE_call; [reflexivity|destruct sv as [z| [|] q | |]; try contradiction; evch; reflexivity|reflexivity|exact AL|unfold aa; destruct sv as [z| [|] q | |]; try contradiction; evch; reflexivity]|].
+    + eapply bsE_seq; [eapply bsE_call; [reflexivity|destruct sv as [z| [|] q | | |bs]; try contradiction; evch; reflexivity|reflexivity|exact AL|unfold aa; destruct sv as [z| [|] q | | |bs]; try contradiction; evch; reflexivity]|].
       eapply bsE_decl1; [evh; reflexivity|evh; reflexivity].
     + eapply bsE_seq; [eapply bsE_if; [evh; reflexivity|reflexivity|apply bsE_skip]|]. eapply bsE_return. evh. reflexivity.
   - eexists. set (pfx := m ++ le32 n).
     assert (Hpfx : zlen pfx = zlen m + 4) by (unfold pfx; rewrite zlen_app; reflexivity).
     assert (Hmem : ba_mem m payload [] = pfx ++ payload ++ []) by (unfold ba_mem, pfx; rewrite Hlen, <- !app_assoc; reflexivity).
     eapply bsE_seq.
-    + eapply bsE_seq; [eapply bsE_call; [reflexivity|destruct sv as [z| [|] q | |]; try contradiction; evch; reflexivity|reflexivity|exact AL|unfold aa; destruct sv as [z| [|] q | |]; try contradiction; evch; reflexivity]|].
+    + eapply bsE_seq; [eapply bsE_call; [reflexivity|destruct sv as [z| [|] q | | |bs]; try contradiction; evch; reflexivity|reflexivity|exact AL|unfold aa; destruct sv as [z| [|] q | | |bs]; try contradiction; evch; reflexivity]|].
       eapply bsE_decl1; [evh; reflexivity|evh; reflexivity].
-    + destruct sv as [z| [|] q | |]; try contradiction.
+    + destruct sv as [z| [|] q | | |bs]; try contradiction.
       * destruct Hsrc as (Hq & Hb & Hp).
         eapply bsE_seq.
         -- eapply bsE_if; [evh; reflexivity|reflexivity|]. eapply bsE_expr. evh. replace (0 <=? n) with true by lia. evh.
@@ -296,7 +313,7 @@ Qed.
 
 (* ================================================================== releasing: nothing is read or written *)
 Definition da (p : Z) (bv : val) (k : Z) (m o : list Z) : state :=
-  {| vars := [("array"%string, VPtr RIn p); (budget_var, bv); (fail_var, VInt k)]; inb := m; outb := o |}.
+  {| vars := [("array"%string, VPtr RIn p); (budget_var, bv); (fail_var, VInt k); (strm_var, VBytes sx)]; inb := m; outb := o |}.
 
 Lemma dispose_array_bs p bv k m o : 4 <= p <= zlen m ->
   bsE prog_env (fbody prog_sbdf_dispose_array) (da p bv k m o) (ONormal (da p bv k m o)).
@@ -308,9 +325,9 @@ Proof.
 Qed.
 
 (* ================================================================== as calls *)
-Theorem str_create_len_source q n m k : 0 <= n -> n + 5 <= int_max -> 0 <= q -> q + n <= zlen m ->
+Theorem str_create_len_source q n m k : 0 <= n -> n + 1 <= int_max -> 0 <= q -> q + n <= zlen m ->
   exists f0, forall f, (f0 <= f)%nat -> exists fin,
-    callH prog_env f prog_sbdf_str_create_len [VPtr RIn q; VInt n] m k =
+    callH prog_env f prog_sbdf_str_create_len [VPtr RIn q; VInt n] m k sx =
       OReturn (if k =? 0 then VNull else VPtr RIn (zlen m + 4)) fin /\
     inb fin = (if k =? 0 then m else str_mem m (firstn (Z.to_nat n) (skipn (Z.to_nat q) m)) []).
 Proof.
@@ -319,29 +336,29 @@ Proof.
   destruct (k =? 0); destruct (bsE_sound _ _ _ _ B) as (f0 & F); exists f0; intros f Hf; eexists; (split; [apply F; exact Hf|reflexivity]).
 Qed.
 
-Theorem str_create_source pre bytes post k : Forall (fun b => b <> 0) bytes -> zlen bytes + 5 <= int_max ->
+Theorem str_create_source pre bytes post k : Forall (fun b => b <> 0) bytes -> zlen bytes + 1 <= int_max ->
   let m := pre ++ bytes ++ 0 :: post in
   exists f0, forall f, (f0 <= f)%nat -> exists fin,
-    callH prog_env f prog_sbdf_str_create [VPtr RIn (zlen pre)] m k = OReturn (if k =? 0 then VNull else VPtr RIn (zlen m + 4)) fin /\
+    callH prog_env f prog_sbdf_str_create [VPtr RIn (zlen pre)] m k sx = OReturn (if k =? 0 then VNull else VPtr RIn (zlen m + 4)) fin /\
     inb fin = (if k =? 0 then m else str_mem m bytes []).
 Proof.
   intros Hnz Hmax m. pose proof (str_create_bs pre bytes post VUndef (VInt 0) k [] Hnz Hmax) as B. cbn zeta in B. fold m in B.
   destruct (k =? 0); destruct (bsE_sound _ _ _ _ B) as (f0 & F); exists f0; intros f Hf; eexists; (split; [apply F; exact Hf|reflexivity]).
 Qed.
 
-Theorem str_copy_source pre bytes post k : zlen bytes + 5 <= int_max ->
+Theorem str_copy_source pre bytes post k : zlen bytes + 1 <= int_max ->
   let m := str_mem pre bytes post in
   exists f0, forall f, (f0 <= f)%nat -> exists fin,
-    callH prog_env f prog_sbdf_str_copy [VPtr RIn (zlen pre + 4)] m k = OReturn (if k =? 0 then VNull else VPtr RIn (zlen m + 4)) fin /\
+    callH prog_env f prog_sbdf_str_copy [VPtr RIn (zlen pre + 4)] m k sx = OReturn (if k =? 0 then VNull else VPtr RIn (zlen m + 4)) fin /\
     inb fin = (if k =? 0 then m else str_mem m bytes []).
 Proof.
   intros Hmax m. destruct (str_copy_bs pre bytes post VUndef VUndef (VInt 0) k [] Hmax) as (c' & B). cbn zeta in B. fold m in B.
   destruct (k =? 0); destruct (bsE_sound _ _ _ _ B) as (f0 & F); exists f0; intros f Hf; eexists; (split; [apply F; exact Hf|reflexivity]).
 Qed.
 
-Theorem ba_create_source q n m k : 0 <= n -> n + 4 <= int_max -> 0 <= q -> q + n <= zlen m ->
+Theorem ba_create_source q n m k : 0 <= n -> n <= int_max -> 0 <= q -> q + n <= zlen m ->
   exists f0, forall f, (f0 <= f)%nat -> exists fin,
-    callH prog_env f prog_sbdf_ba_create [VPtr RIn q; VInt n] m k = OReturn (if k =? 0 then VNull else VPtr RIn (zlen m + 4)) fin /\
+    callH prog_env f prog_sbdf_ba_create [VPtr RIn q; VInt n] m k sx = OReturn (if k =? 0 then VNull else VPtr RIn (zlen m + 4)) fin /\
     inb fin = (if k =? 0 then m else ba_mem m (firstn (Z.to_nat n) (skipn (Z.to_nat q) m)) []).
 Proof.
   intros Hn Hmax Hq Hb.
@@ -350,7 +367,7 @@ Proof.
 Qed.
 
 Definition ds (p : Z) (bv : val) (k : Z) (m o : list Z) : state :=
-  {| vars := [("str"%string, VPtr RIn p); (budget_var, bv); (fail_var, VInt k)]; inb := m; outb := o |}.
+  {| vars := [("str"%string, VPtr RIn p); (budget_var, bv); (fail_var, VInt k); (strm_var, VBytes sx)]; inb := m; outb := o |}.
 
 Lemma str_destroy_bs p bv k m o : 4 <= p <= zlen m ->
   bsE prog_env (fbody prog_sbdf_str_destroy) (ds p bv k m o) (ONormal (ds p bv k m o)).
@@ -368,8 +385,8 @@ Qed.
 
 Theorem destroy_source p m k : 4 <= p <= zlen m ->
   exists f0, forall f, (f0 <= f)%nat ->
-    (exists fin, callH prog_env f prog_sbdf_str_destroy [VPtr RIn p] m k = ONormal fin /\ inb fin = m) /\
-    (exists fin, callH prog_env f prog_sbdf_ba_destroy [VPtr RIn p] m k = ONormal fin /\ inb fin = m).
+    (exists fin, callH prog_env f prog_sbdf_str_destroy [VPtr RIn p] m k sx = ONormal fin /\ inb fin = m) /\
+    (exists fin, callH prog_env f prog_sbdf_ba_destroy [VPtr RIn p] m k sx = ONormal fin /\ inb fin = m).
 Proof.
   intros Hp. destruct (bsE_sound _ _ _ _ (str_destroy_bs p (VInt 0) k m [] Hp)) as (f1 & F1).
   destruct (bsE_sound _ _ _ _ (ba_destroy_bs p (VInt 0) k m [] Hp)) as (f2 & F2).
@@ -378,9 +395,9 @@ Qed.
 
 (* ================================================================== sbdf_copy_array *)
 Definition ca (p : Z) (d l bv : val) (k : Z) (m o : list Z) : state :=
-  {| vars := [("src"%string, VPtr RIn p); ("dst"%string, d); ("l"%string, l); (budget_var, bv); (fail_var, VInt k)]; inb := m; outb := o |}.
+  {| vars := [("src"%string, VPtr RIn p); ("dst"%string, d); ("l"%string, l); (budget_var, bv); (fail_var, VInt k); (strm_var, VBytes sx)]; inb := m; outb := o |}.
 
-Lemma copy_array_bs pre payload post d l bv k o : zlen payload + 4 <= int_max ->
+Lemma copy_array_bs pre payload post d l bv k o : zlen payload <= int_max ->
   let m := pre ++ le32 (zlen payload) ++ payload ++ post in
   bsE prog_env (fbody prog_sbdf_copy_array) (ca (zlen pre + 4) d l bv k m o)
     (if k =? 0 then OReturn VNull (ca (zlen pre + 4) VNull (VInt (zlen payload)) bv (-1) m o)
@@ -415,10 +432,10 @@ Proof.
     + eapply bsE_cast_o; [eapply bsE_return; evh; reflexivity|]. unfold ba_mem, pfx. fold n. rewrite <- !app_assoc, Hlm. reflexivity.
 Qed.
 
-Theorem copy_array_source pre payload post k : zlen payload + 4 <= int_max ->
+Theorem copy_array_source pre payload post k : zlen payload <= int_max ->
   let m := pre ++ le32 (zlen payload) ++ payload ++ post in
   exists f0, forall f, (f0 <= f)%nat -> exists fin,
-    callH prog_env f prog_sbdf_copy_array [VPtr RIn (zlen pre + 4)] m k = OReturn (if k =? 0 then VNull else VPtr RIn (zlen m + 4)) fin /\
+    callH prog_env f prog_sbdf_copy_array [VPtr RIn (zlen pre + 4)] m k sx = OReturn (if k =? 0 then VNull else VPtr RIn (zlen m + 4)) fin /\
     inb fin = (if k =? 0 then m else ba_mem m payload []).
 Proof.
   intros Hmax m. pose proof (copy_array_bs pre payload post VUndef VUndef (VInt 0) k [] Hmax) as B. cbv zeta in B. fold m in B.
@@ -428,14 +445,14 @@ Qed.
 (* allocation failure (oracle 0: the first malloc of the call fails): every constructor returns NULL
    and leaves the memory exactly as it was *)
 Definition fails_clean (f : func) (args : list val) (m : list Z) : Prop :=
-  exists f0, forall fu, (f0 <= fu)%nat -> exists fin, callH prog_env fu f args m 0 = OReturn VNull fin /\ inb fin = m.
+  exists f0, forall fu, (f0 <= fu)%nat -> exists fin, callH prog_env fu f args m 0 sx = OReturn VNull fin /\ inb fin = m.
 
 Theorem alloc_failure_source :
-  (forall q n m, 0 <= n -> n + 5 <= int_max -> 0 <= q -> q + n <= zlen m -> fails_clean prog_sbdf_str_create_len [VPtr RIn q; VInt n] m) /\
-  (forall pre bytes post, Forall (fun b => b <> 0) bytes -> zlen bytes + 5 <= int_max -> fails_clean prog_sbdf_str_create [VPtr RIn (zlen pre)] (pre ++ bytes ++ 0 :: post)) /\
-  (forall pre bytes post, zlen bytes + 5 <= int_max -> fails_clean prog_sbdf_str_copy [VPtr RIn (zlen pre + 4)] (str_mem pre bytes post)) /\
-  (forall q n m, 0 <= n -> n + 4 <= int_max -> 0 <= q -> q + n <= zlen m -> fails_clean prog_sbdf_ba_create [VPtr RIn q; VInt n] m) /\
-  (forall pre payload post, zlen payload + 4 <= int_max -> fails_clean prog_sbdf_copy_array [VPtr RIn (zlen pre + 4)] (pre ++ le32 (zlen payload) ++ payload ++ post)).
+  (forall q n m, 0 <= n -> n + 1 <= int_max -> 0 <= q -> q + n <= zlen m -> fails_clean prog_sbdf_str_create_len [VPtr RIn q; VInt n] m) /\
+  (forall pre bytes post, Forall (fun b => b <> 0) bytes -> zlen bytes + 1 <= int_max -> fails_clean prog_sbdf_str_create [VPtr RIn (zlen pre)] (pre ++ bytes ++ 0 :: post)) /\
+  (forall pre bytes post, zlen bytes + 1 <= int_max -> fails_clean prog_sbdf_str_copy [VPtr RIn (zlen pre + 4)] (str_mem pre bytes post)) /\
+  (forall q n m, 0 <= n -> n <= int_max -> 0 <= q -> q + n <= zlen m -> fails_clean prog_sbdf_ba_create [VPtr RIn q; VInt n] m) /\
+  (forall pre payload post, zlen payload <= int_max -> fails_clean prog_sbdf_copy_array [VPtr RIn (zlen pre + 4)] (pre ++ le32 (zlen payload) ++ payload ++ post)).
 Proof.
   repeat split; intros.
   - destruct (str_create_len_source q n m 0) as (f0 & F); auto. exists f0. exact F.
@@ -444,3 +461,4 @@ Proof.
   - destruct (ba_create_source q n m 0) as (f0 & F); auto. exists f0. exact F.
   - destruct (copy_array_source pre payload post 0) as (f0 & F); auto. exists f0. exact F.
 Qed.
+End WithStream.
